@@ -1,7 +1,7 @@
 PROP = {
     "modules": ["Discv5Model.Props.C12"],
     "lemma_modules": ["Discv5Model.Proofs.ServicePolicy", "Discv5Model.Proofs.ServiceVals"],
-    "engines": [{"name": "service", "quick": 150, "thorough": 4000}],
+    "engines": [{"name": "service", "quick": 150, "thorough": 4000}, {"name": "handler", "quick": 40, "thorough": 800}],
     "rule": "service engine, profile C12: one Service (IPv4 / IPv6 / dual stack, accept-all or rejecting table filter, "
             "incoming limit 16 or 2, ENR update on/off) driven by scripted handler events: sessions and explicit adds with every "
             "record shape (no address, v4, v6, both, IPv4-mapped v6, ip without port, filter-rejected, changed address), "
@@ -11,7 +11,7 @@ PROP = {
             "Table compared with the model after every op. non-trivial = an op on a table that changed a stored record "
             "through the network path, or ran with a full bucket / pending node",
     "nontrivial": [("service", "s.network-update"), ("service", "s.ops-with-full-bucket"), ("service", "s.established")],
-    "trusted_base": ["record validity / node ids decided by the enr crate (abstract Rec in the model)",
+    "trusted_base": ["handler half (verify_enr: incoming sessions only with a record whose socket equals the observed source) is checked by the handler engine with records advertising another port / another IP / no socket (model comparison + monitor session-established-with-foreign-address)", "record validity / node ids decided by the enr crate (abstract Rec in the model)",
                      "the single-stack source-address check of incoming sessions is the handler's verify_enr (handler engine), not part of the service"],
     "assumptions": ["pending-node timeout (60 s of real time) never elapses within a case"],
     "engine": "service",
